@@ -52,6 +52,7 @@ fn grid_cell(seed: u64, a: (u32, u32), b: (u32, u32), bufs: usize) -> Scenario {
         dg_recv: [Some((0, 0)), Some((0, 0))],
         faults: [None, None],
         drop_first: rng.below(3) as u8,
+        binds: vec![],
     }
 }
 
@@ -103,6 +104,7 @@ fn isolation(seed: u64) -> Scenario {
         dg_recv: [Some((0, 0)), Some((0, 0))],
         faults: [None, None],
         drop_first: rng.below(3) as u8,
+        binds: vec![],
     }
 }
 
@@ -111,7 +113,7 @@ pub fn run(p: &Params) -> (Stats, &'static str) {
     crate::sim::install_observer();
     let mut st = Stats::new();
     let base = p.shard_seed("C04");
-    let meta = |sc: &Scenario| Meta { abnormal_end: false, dgram_cap: [sc.cfg[0].dgram_buf, sc.cfg[1].dgram_buf], stream_is_bridge: false, sim: true };
+    let meta = |sc: &Scenario| Meta { abnormal_end: false, dgram_cap: [sc.cfg[0].dgram_buf, sc.cfg[1].dgram_buf], stream_is_bridge: false, sim: true, ..Meta::default() };
     // (a) option grid. thorough: every pair x 2 buffer sizes x 2 seeds (exhaustive over the grid); quick: boundary pairs + a seeded sample
     let mut cells: Vec<((u32, u32), (u32, u32))> = Vec::new();
     for ra in RWNDS {
